@@ -11,11 +11,14 @@ from ..util import (has_call, find_calls, assigned_value, const_str, unparse, kw
 from .. import mutate as M
 from . import c02
 
+TECHNIQUE = 'static analysis: who-may-call/provenance rule (the learner reaching evaluate is a deepcopy when shared), CFG handler-write rule, module-level mutable-state scan, held-object rule (long-lived learners only used through deepcopy)'
+
 EXPLANATION = ("Static rules over ProcessTasks/MakeTasks/Multiprocessor: under task.copy the only learner definition "
                "reaching evaluate() is deepcopy(task learner) (reaching definitions on the CFG specialised over the "
                "task-kind flags), the copy flag counts occurrences over ALL given triples, T4 payloads are materialised "
                "before the yield, the per-task try/except contains every failure, shared evaluation state "
                "(CobaContext.learning_info) is cleared per evaluation, and chunks cross the process boundary pickled.")
+EXPLANATION += ' R7: learners held by environment filters reach evaluate/learn/predict only as deep copies.'
 
 PROC = "coba/experiments/process.py"
 PMP = "coba/pipes/multiprocessing.py"
